@@ -26,12 +26,17 @@ PROFILES = {
     "symloop": dict(features={"arith", "loop", "symloop", "storage", "mem"}, nstmts=(1, 2), depth=1),
     "symjump": dict(features={"arith", "symjump", "mem"}, nstmts=(1, 2), depth=0),
     "callfail": dict(features={"arith", "callfail", "call", "storage"}, nstmts=(1, 3), depth=1, branchy=0.8),
+    # CREATE2 (DESIGN.md 10.2.x): creations by the executing account and by callees that create (sender = callee, or the
+    # caller under DELEGATECALL / CALLCODE; a creating callee reached by STATICCALL halts)
+    "create2": dict(features={"arith", "create2", "mem", "env"}, nstmts=(1, 3), depth=1, c2pool=True),
 }
 
 
 def make(rng, profile, options=None, nargs=2):
     prof = PROFILES[profile]
-    if "branchy" in prof:
+    if prof.get("c2pool"):
+        pool_codes = [asm.assemble(progen.c2_callee(rng, i)) for i in range(len(POOL_ADDRS))]
+    elif "branchy" in prof:
         pool_codes = progen.callee_pool(rng, len(POOL_ADDRS), branchy=prof["branchy"])
     else:
         pool_codes = progen.callee_pool(rng, len(POOL_ADDRS)) if "call" in prof["features"] else []
@@ -62,7 +67,8 @@ def from_description(d):
     nargs = d.get("nargs", 2)
     return {"profile": d.get("profile", "replay"), "accounts": accounts, "this": THIS,
             "calldata": [("c", b"\x12\x34\x56\x78")] + [("s", f"arg{i}", 32) for i in range(nargs)],
-            "static": d.get("static", False), "options": d.get("options", {}), "symbolic_storage": bool(d.get("symbolic_storage"))}
+            "static": d.get("static", False), "options": d.get("options", {}), "symbolic_storage": bool(d.get("symbolic_storage")),
+            "extra_args": d.get("extra_args", [])}     # argument valuations a corpus entry insists on (l2tie.derive_inputs)
 
 
 BOOL_OPS = {0x10, 0x11, 0x12, 0x13, 0x14, 0x15}
